@@ -223,6 +223,21 @@ pub fn run_case(lines: &[Vec<String>], o: &mut Out) {
             plain!(91, cls, g, dijkstra::get_all_shortest_paths_involving(&*g, x, true));
         }
     }
+    // further option values of the iterative / randomised algorithms
+    for w in [false, true] {
+        res!(97, 0, g, centrality::eigenvector::eigenvector_centrality(&*g, w, None, None));
+        res!(97, 0, g, centrality::eigenvector::eigenvector_centrality(&*g, w, Some(1), Some(1e-6)));
+        res!(97, 0, g, centrality::eigenvector::eigenvector_centrality(&*g, w, Some(0), Some(1e-6)));
+        res!(98, 0, g, community::louvain::louvain_partitions(&*g, w, Some(2.0), Some(1e-3), Some(7)));
+        res!(98, 0, g, community::louvain::louvain_communities(&*g, w, None, None, Some(2)));
+        res!(99, 0, g, cluster::average_clustering(&*g, w, None, false));
+    }
+    if let Some(f) = names.first().cloned() {
+        for w in [false, true] {
+            res!(100, 1, g, dijkstra::single_source(&*g, w, f, None, Some(0.0), false, true));
+            res!(100, 1, g, dijkstra::single_source(&*g, w, f, Some(f), Some(0.0), true, true));
+        }
+    }
     // every option combination of the shortest-path entry points (the options select different code paths)
     if let (Some(f), Some(l)) = (names.first().cloned(), names.last().cloned()) {
         for w in [false, true] {
